@@ -1155,6 +1155,14 @@ func main() {
 				if !results[i].Hung && results[i].Err == "" {
 					break
 				}
+				if results[i].Hung && *prop == "C06" {
+					// a request that does not return is what C06 forbids (monitor code 9): keep the
+					// observation as it is, no second chance
+					rmu.Lock()
+					hangs = append(hangs, fmt.Sprintf("history %d: %s", i, results[i].Err))
+					rmu.Unlock()
+					break
+				}
 				rmu.Lock()
 				retries++
 				if results[i].Hung {
